@@ -141,6 +141,8 @@ def _ownership(ctx, repo) -> None:
 
 def check(ctx) -> None:
     repo = ctx.repo
+    ctx.rule("C32.bounds", "every executor built by the pipeline (search, assertion filtering, mutation analysis) is given the configured maximum_test_execution_timeout and test_execution_time_per_statement", floor=8)
+    _configured_bounds(ctx, repo)
     ctx.rule("C32.namespace", "OWNERSHIP: the namespace dict of an execution is created inside _build_namespace and is not stored on the executor", floor=1)
     _fresh_namespace(ctx, repo)
     ctx.rule("C32.proxy", "SIBLING: every single-call method of the tracer proxy forwards to the wrapped tracer's method of the same name", floor=20)
@@ -390,3 +392,29 @@ def _fresh_namespace(ctx, repo) -> None:
         ok = fresh(v) or (isinstance(v, ast.Name) and v.id in assigns and all(fresh(x) for x in assigns[v.id]))
         leaked = [norm(s)[:60] for s in stored if isinstance(v, ast.Name) and v.id in {x.id for x in ast.walk(s.value) if isinstance(x, ast.Name)}]
         ctx.check("C32.namespace", r, ok and not leaked, f"_build_namespace returns `{norm(v)}`, which is {'kept on the executor (' + '; '.join(leaked) + ')' if leaked else 'not created in this call'}: executions share one globals / locals dict, so a statement of an abandoned (timed-out) test that finishes late rebinds a variable of the test that runs now (`'float' object has no attribute ...` in a later result)", what="the namespace of an execution is created per call and not kept", stmt="[namespace] fresh per execution")
+
+
+def _configured_bounds(ctx, repo) -> None:
+    """Every executor that the pipeline builds outside the executor modules themselves (the search's executor, the
+    filtering executor, the mutation executor) is given both time bounds; an executor built with the constructor's
+    defaults reports a non-terminating test after 5 s whatever bound was configured."""
+    EXE_MOD = "pynguin.testcase.execution"
+    SUB_MOD = "pynguin.testcase.subprocess_executor"
+    n = 0
+    for mod, qn, fn in repo.all_functions("pynguin"):
+        if mod.name in (EXE_MOD, SUB_MOD):
+            continue  # executors that build executors: C31.aux
+        for c in own_nodes(fn):
+            if not (isinstance(c, ast.Call) and last_attr(c) in ("SubprocessTestCaseExecutor", "TestCaseExecutor")):
+                continue
+            callee = repo.func(SUB_MOD if last_attr(c) == "SubprocessTestCaseExecutor" else EXE_MOD, f"{last_attr(c)}.__init__")
+            params = [a.arg for a in callee.args.args][1:]
+            bound = dict(zip(params, c.args))
+            bound.update({k.arg: k.value for k in c.keywords if k.arg})
+            n += 1
+            ctx.analysed(fn)
+            for p in ("maximum_test_execution_timeout", "test_execution_time_per_statement"):
+                ok = p in bound and p in norm(bound[p])
+                ctx.check("C32.bounds", c, ok, f"{mod.name}:{qn}: `{last_attr(c)}(...)` is built with {'`' + norm(bound[p]) + '`' if p in bound else 'the default'} for `{p}`: a test case that does not terminate on this executor (e.g. on a mutant) is reported after the default 5 s / 1 s per statement, not within the configured bound", what=f"{qn}: {last_attr(c)} gets the configured {p}", stmt=f"[{qn}] {last_attr(c)}.{p}")
+    if n < 4:
+        raise AnalysisError(f"C32.bounds: only {n} executor constructions found outside the executor modules (confirmed by reading: 5)")
